@@ -10,6 +10,10 @@ Driver of C10 (stateful). Requests (see `harness/c10.py`):
   enum <e> / dropenum <e>         a PPEnumFieldType is created / released
   render <o> <kind> <k|g> <mode> <top> <subs> <lines>
                                   o = object number (ignored here), kind obj|rec|hcmd, mode c (coloured) n (no colour) l / m (line-wise coloured / no colour), L / M (whole text first, then the lines)
+  res <r> <o> <k|g> <c|n> <top> <subs> <lines>   r = obj.ch_text(...) (lazy: only the palette is made)
+  str <r>                         str(r) (memoised)
+  iter <i> <r> / next <i> <n>     it = iter(r) / the next n lines of it
+  setfmt <o> <fmt>                table.fmt = fmt (layout only: acknowledged)
   gp <i> / gpi <syntax id>        str(global_palette.<accessor i>("x")) / str(global_palette[id]("x"))
 -/
 open Ak Ak.Proto Render PaletteState
@@ -56,16 +60,19 @@ def parseChunk (t : String) : Option SChunk :=
     | _, _ => none
   | _ => none
 
-def parseLine (t : String) : Option SLine :=
+/-- `m1,5;chunk;chunk`: kind (`r` list of chunks / `m` CHText), the sub-palette classes requested since the
+previous line, the chunks -/
+def parseLine (t : String) : Option LLine :=
   match t.splitOn ";" with
   | k :: chunks =>
-    let kind := if k = "r" then some LineKind.raw else if k = "m" then some LineKind.made else none
-    match kind, chunks.mapM parseChunk with
-    | some kd, some cs => some ⟨kd, cs⟩
-    | _, _ => none
+    let kind := if k.startsWith "r" then some LineKind.raw else if k.startsWith "m" then some LineKind.made else none
+    let reqs := if k.length ≤ 1 then some [] else parseNatList (k.drop 1).toString
+    match kind, reqs, chunks.mapM parseChunk with
+    | some kd, some rq, some cs => some ⟨rq, ⟨kd, cs⟩⟩
+    | _, _, _ => none
   | [] => none
 
-def parseLines (t : String) : Option (List SLine) :=
+def parseLines (t : String) : Option (List LLine) :=
   if t = "-" then some [] else (t.splitOn "/").mapM parseLine
 
 def showStrs (l : List (List Char)) : String := " ".intercalate (l.map showCps)
@@ -118,10 +125,39 @@ def handle (s : State) (line : String) : State × String :=
     match confOf s k, top.toNat?, parseNatList subs, parseLines lines with
     | some k, some top, some subs, some ls =>
       let nc := mode = "n" || mode = "m" || mode = "M"
-      match render cfg reuseAlloc k nc ⟨top, subs, ls⟩ s with
+      match render cfg reuseAlloc k nc ⟨top, subs, ls.map (·.line)⟩ s with
       | .ok (s', out) => (s', observe kind mode out)
       | .error e => (s, "err " ++ e.name)
     | _, _, _, _ => (s, "bad-op")
+  | ["res", r, _obj, k, mode, top, _subs, lines] =>
+    match r.toNat?, confOf s k, top.toNat?, parseLines lines with
+    | some r, some k, some top, some ls =>
+      match mkRes cfg reuseAlloc r k (mode = "n") top ls s with
+      | .ok s' => (s', "ok")
+      | .error e => (s, "err " ++ e.name)
+    | _, _, _, _ => (s, "bad-op")
+  | ["str", r] =>
+    match r.toNat? with
+    | some r =>
+      match strRes cfg reuseAlloc r s with
+      | .ok (s', w) => (s', "ok " ++ showCps (strOf w))
+      | .error e => (s, "err " ++ e.name)
+    | none => (s, "bad-op")
+  | ["iter", i, r] =>
+    match i.toNat?, r.toNat? with
+    | some i, some r =>
+      match mkIter i r s with
+      | .ok s' => (s', "ok")
+      | .error e => (s, "err " ++ e.name)
+    | _, _ => (s, "bad-op")
+  | ["next", i, n] =>
+    match i.toNat?, n.toNat? with
+    | some i, some n =>
+      match nextIter cfg reuseAlloc i n s with
+      | .ok (s', outs) => (s', "ok " ++ toString outs.length ++ (if outs.isEmpty then "" else " " ++ showStrs (outs.map strOf)))
+      | .error e => (s, "err " ++ e.name)
+    | _, _ => (s, "bad-op")
+  | ["setfmt", _obj, _fmt] => (s, "ok")
   | ["gp", i] =>
     match i.toNat? with
     | some i =>
